@@ -392,6 +392,40 @@ Example C06_translated_ReadWithSize_runs :
   = GoLite.RRet (GoLite.VTuple [GoLite.VInts []; GoLiteC06_ReadWithSize.os_val ptr_zero; GoLite.VErr "fmt.Errorf"%string]).
 Proof. vm_compute. split; reflexivity. Qed.
 
+(* gsfa-read.go:(GsfaReader).Get — the walk along an address's chain: the head from the pubkey index, then the record at
+   each previous pointer until the zero pointer or the limit — translated on every check (Generated/GoLiteGetC06.v), the
+   record reader being an oracle that answers as the model's read_with_size (which the translated ReadWithSize above is
+   proved equal to): for every linked-log file and head pointer, with a limit the history does not reach, Get returns
+   exactly what the model's bwalk returns (C06_Store.v: the function C06_reader_refines and C06_get_all are about) —
+   every entry of the chain, newest first; with a smaller limit, the walk cut at the limit (GoLiteC06_Get.Get_spec) *)
+Require YF.Generated.GoLiteGetC06 YF.GoLiteC06_Get YF.C06_Store.
+Theorem C06_translated_Get_is_the_models_walk :
+  forall (decompress : list N -> option (list N)) (file : list N) (head : option ptr) (maxent : nat),
+  (forall o sz es prev, read_with_size decompress file o sz = Some (es, prev) -> List.length es <= maxent) ->
+  (Z.of_nat maxent < 4611686018427387904)%Z ->
+  forall ov llv cv pkv (limit F g : nat) (p : ptr) (l : list entry),
+  head = Some p -> C06_Store.bwalk decompress F file p = Some l -> List.length l < limit ->
+  (Z.of_nat limit < 4611686018427387904)%Z -> F + maxent + 2 <= g ->
+  GoLite.call GoLiteGetC06.prog (GoLiteC06_Get.ext_get decompress file head) g "GsfaReader.Get"%string
+    [GoLiteC06_Get.idx_val ov llv; cv; pkv; GoLite.VInt (Z.of_nat limit)]
+  = GoLite.RRet (GoLite.VTuple [GoLite.VTuple (map GoLiteC06_Codec.oas_val l); GoLite.VNil]).
+Proof.
+  exact (fun decompress file head maxent H H2 => GoLiteC06_Get.Get_is_bwalk decompress file head maxent H H2).
+Qed.
+
+(* the translated Get RUNS on the two-record file of the example above: both entries newest first; limit 1: the newest *)
+Example C06_translated_Get_runs :
+  let e1 : entry := (300, 5, 432001, 6)%N in let e2 : entry := (7, 70000, 432000, 1)%N in
+  let f1 := put id_compress [] ptr_zero [e1] in
+  let f2 := put id_compress (fst f1) (snd f1) [e2] in
+  let run := fun (limit : Z) =>
+    GoLite.call GoLiteGetC06.prog (GoLiteC06_Get.ext_get id_decompress (fst f2) (Some (snd f2))) 20 "GsfaReader.Get"%string
+      [GoLiteC06_Get.idx_val GoLite.VNil GoLite.VNil; GoLite.VNil; GoLite.VNil; GoLite.VInt limit] in
+  run 10%Z = GoLite.RRet (GoLite.VTuple [GoLite.VTuple [GoLiteC06_Codec.oas_val e2; GoLiteC06_Codec.oas_val e1]; GoLite.VNil]) /\
+  run 1%Z = GoLite.RRet (GoLite.VTuple [GoLite.VTuple [GoLiteC06_Codec.oas_val e2]; GoLite.VNil]) /\
+  run 0%Z = GoLite.RRet (GoLite.VTuple [GoLite.VTuple []; GoLite.VNil]).
+Proof. vm_compute. repeat split; reflexivity. Qed.
+
 (* non-vacuity: the translated codec RUNS in the kernel: an entry is encoded, then read back field by field *)
 Example C06_translated_codec_runs :
   let e : entry := (300, 5, 432001, 6)%N in
@@ -416,3 +450,4 @@ Print Assumptions C06_translated_encodeUvarint_is_uvarint.
 Print Assumptions C06_translated_record_decoder_is_entries_dec.
 Print Assumptions C06_translated_record_decoder_roundtrip.
 Print Assumptions C06_translated_ReadWithSize_is_read_with_size.
+Print Assumptions C06_translated_Get_is_the_models_walk.
